@@ -5,11 +5,21 @@ only permutations of the input to the callback, leaves a permutation behind.
 Everything else of RDFC-1.0 (hash-n-degree-quads, relabel_with steps 3-5) is NOT covered.
 """
 import json
-from engine import core, verus, native
+from engine import core, verus, native, overlay, kani_unit
+from engine.kani_unit import H
 from units import perm
 
 LEVEL = "proof"
 ID = "C06"
+
+# completeness of the enumeration: concrete distinct inputs, every loop bound a constant => complete for that n.
+# n = 6 is DEFAULT_PERMUTATION_LIMIT (longer lists are rejected before the call).
+KANI = [
+    H("c06_permutations_complete_n4", "for 4 distinct elements the callback sees exactly 4! pairwise distinct permutations", complete=True, timeout=900),
+    H("c06_permutations_complete_n5", "for 5 distinct elements: exactly 5! pairwise distinct permutations", complete=True, timeout=1500),
+    H("c06_permutations_error_stops", "the first Err of the callback is returned at once, no further call (n = 4, every failing position)", complete=True, timeout=900),
+    H("c06_permutations_complete_n6", "for 6 distinct elements (the default permutation limit): exactly 6! pairwise distinct permutations", complete=True, tiers=("thorough",), timeout=5400),
+]
 
 
 def run(rep):
@@ -25,6 +35,15 @@ def run(rep):
     cres = verus.run_verus(ID, "perm_canary", can["text"])
     rep.guard("canary: with a swap that overwrites instead of exchanging, `permutations` must be refuted",
               cres["funcs"].get("permutations") is False, str(cres["funcs"]))
+    with overlay.Scratch(ID) as sc:
+        sc.append("c14n/src/_permutations.rs", open(core.VERIF + "/contracts/perm/kani_perm.rs").read())
+        kfailed = kani_unit.run_harnesses(rep, sc, "sophia_c14n", KANI, jobs=4, need_stubs=False)
+    if kfailed:
+        rc, out, err, secs = native.run_replay(ID, "c06", [])
+        witness, confirmed = (out.strip().splitlines()[-1], True) if rc == 1 else (None, False)
+        for h, r in kfailed:
+            rep.violation("kani:sophia_c14n::" + h.name, kani_unit.describe_failure(r), witness=witness,
+                          replay_text="./check C06 --replay <this file>", confirmed=confirmed)
     if failed:
         rc, out, err, secs = native.run_replay(ID, "c06", [])
         witness, confirmed = (out.strip().splitlines()[-1], True) if rc == 1 else (None, False)
@@ -33,7 +52,7 @@ def run(rep):
                           replay_text="./check C06 --replay <this file>  # replay_src/c06: canonicalises small symmetric datasets under all relabelings with the real crate",
                           confirmed=confirmed)
     rep.not_covered += [
-        "exactly n! pairwise distinct arrangements (completeness of Heap's algorithm)",
+        "completeness (n! distinct arrangements) beyond n = 5 in the quick tier / n = 6 in the thorough tier; user-raised permutation limits",
         "steps 3-5 of the canonicalization algorithm, Hash N-Degree Quads, issuer, canonical N-Quads escaping: not under contract",
     ]
     rep.notes.append("kernel-only claim: a mutation outside _permutations.rs is not detected by this check")
